@@ -10,7 +10,7 @@ for d in sorted(glob.glob("/verif/seeded/*/")):
         continue
     mp = os.path.join(d, "meta.json")
     meta = json.load(open(mp))
-    if meta.get("obsolete_after_repair"):
+    if meta.get("obsolete_after_repair") or str(meta.get("status", "")).startswith("obsolete"):
         print(sid, "obsolete after repair", meta["obsolete_after_repair"].get("repo_commit"))
         continue
     checks = sorted({k.split(":")[0] for k in meta.get("detected_by", {})} | {meta["breaks_property"]})
